@@ -251,7 +251,7 @@ func clip(s []int) []int {
 
 func runC04(r *core.Run) {
 	quick := isQuick(r)
-	shapes := ref.DedupShapes(append(ref.ShapesUpTo(1, 3, 3), [][]int{{2, 2, 2, 2}, {2, 1, 2, 3}, {1, 3, 1, 2}, {4}, {5}, {4, 5}, {1, 5}, {5, 1}}...))
+	shapes := ref.DedupShapes(append(ref.ShapesUpTo(1, 3, 3), [][]int{{2, 2, 2, 2}, {2, 1, 2, 3}, {1, 3, 1, 2}, {4}, {5}, {4, 5}, {1, 5}, {5, 1}, {4, 2}}...))
 	if !quick {
 		shapes = ref.DedupShapes(append(ref.ShapesUpTo(1, 3, 4), append(ref.Shapes(4, 2), [][]int{{3, 3, 3, 3}, {2, 1, 2, 3}, {1, 3, 1, 2}, {5}, {4, 5}, {1, 5}, {5, 1}}...)...))
 	}
